@@ -268,9 +268,7 @@ def gen_doc(t, rng, ctx, n=None, strict=False):
         m = t[1] + (rng.choice([-1, 1]) if bad else 0)
         return [gen_doc(B, rng, ctx, strict=elem_strict) for _ in range(max(0, m))]
     if k == "set":
-        # scalar element: "TValue value;" is indeterminate when the element is not loaded
-        st = elem_strict or t[2] == "int"
-        return [gen_doc((t[2],), rng, ctx, strict=st) for _ in range(n)]
+        return [gen_doc((t[2],), rng, ctx, strict=elem_strict) for _ in range(n)]
     if k == "map":
         keys = []
         pool = list(range(-3, 12)) if t[1] == "int" else list(KEYWORDS)
